@@ -102,10 +102,16 @@ class Probe:
         return False
 
 
-def run_one(gname, n, cap, lazy, k, chooser, storage):
+def run_one(gname, n, cap, lazy, k, chooser, storage, pool=False):
     spec = graph(gname, n)
+    if pool:
+        # computations go through the worker pool (lazy mode is then switched off by the processor even if it
+        # was allowed: every mailbox must still respect its capacity)
+        for p in spec["plugins"]:
+            if p["type"] in ("row", "multi"):
+                p["parallel"] = "thread"
     probe = Probe()
-    probe.lazy = lazy
+    probe.lazy = lazy and not pool
     probe.required = {"top"} | {d for p in spec["plugins"] for d in p["deps"]}
     out = {}
     d = hrun.mktemp("c13-") if storage else None
@@ -148,7 +154,7 @@ def run_one(gname, n, cap, lazy, k, chooser, storage):
             got = 0
             try:
                 with common.quiet():
-                    it = st.get_iter("0", "top", progress_bar=False)
+                    it = st.get_iter("0", "top", progress_bar=False, max_workers=2 if pool else None)
                     for c in it:
                         got += 1
                         if got == k:
@@ -198,7 +204,7 @@ def judge(cfg, out):
     if out["source_calls"] > b:
         v.append(("unbounded-production", f"{out['source_calls']} source chunks produced after the consumer stopped at k={cfg['k']} "
                                           f"(bound {b}, run length {cfg['n']})"))
-    if not cfg["lazy"]:
+    if not cfg["lazy"] or cfg.get("pool"):
         for name, h in out["held"].items():
             if h > out["caps"][name]:
                 v.append(("capacity", f"mailbox {name} held {h} messages, capacity {out['caps'][name]}"))
@@ -214,6 +220,11 @@ def configs():
             for lazy in (True, False):
                 for k in (1, 2, 3):
                     cfgs.append({"graph": g, "capacity": cap, "lazy": lazy, "k": k})
+    # worker pool (max_workers = 2) with lazy mode allowed (the default) and forbidden
+    for g in ("chain_savers", "multi_saved", "diamond"):
+        for cap in (1, 2, 4):
+            for lazy in (True, False):
+                cfgs.append({"graph": g, "capacity": cap, "lazy": lazy, "k": 2, "pool": True})
     return cfgs
 
 
@@ -230,7 +241,7 @@ def run_unit(u):
 
     def add(cfg, kind, text, out):
         if len(res["violations"]) < 15:
-            res["violations"].append({"sig": {"kind": kind, "lazy": cfg["lazy"], "graph": cfg["graph"]},
+            res["violations"].append({"sig": {"kind": kind, "lazy": cfg["lazy"], "graph": cfg["graph"], "pool": bool(cfg.get("pool"))},
                                       "what": f"{kind}: {text}"[:600], "case": {"cfg": cfg, "choices": out.get("choices", [])[:20000]}})
 
     for ci, base in enumerate(configs()):
@@ -240,7 +251,7 @@ def run_unit(u):
 
         def one(n, chooser, label):
             cfg = dict(base, n=n, schedule=label)
-            out = run_one(base["graph"], n, base["capacity"], base["lazy"], base["k"], chooser, storage)
+            out = run_one(base["graph"], n, base["capacity"], base["lazy"], base["k"], chooser, storage, pool=base.get("pool", False))
             res["evaluations"] += 1
             cnt["scheduling_points"] = cnt.get("scheduling_points", 0) + out["steps"]
             if out["quiescent"]:
@@ -265,7 +276,7 @@ def run_unit(u):
         one(N0, coop.NamedPriorityChooser(list(reversed(up))), "downstream-first")
         # lazy mailboxes with several subscribers (a saver or a second branch beside the driving reader) have the
         # narrow windows (sender re-checks demand between a send and the wake-up of the reader): more PCT runs
-        multi_sub = base["lazy"] and base["graph"] in ("chain_savers", "multi_saved", "diamond")
+        multi_sub = base["lazy"] and not base.get("pool") and base["graph"] in ("chain_savers", "multi_saved", "diamond")
         for j in range(2 if q else 25):
             one(N0, coop.RandomChooser(u["seed"] * 1009 + ci * 17 + j), "random")
         for j in range((10 if multi_sub else 1) if q else (60 if multi_sub else 10)):
@@ -279,7 +290,7 @@ def replay(case):
     cfg = case["cfg"]
     storage = cfg["graph"] in ("chain_savers", "multi_saved")
     out = run_one(cfg["graph"], cfg.get("n", 60), cfg["capacity"], cfg["lazy"], cfg["k"],
-                  coop.ReplayChooser(case.get("choices", [])), storage)
+                  coop.ReplayChooser(case.get("choices", [])), storage, pool=cfg.get("pool", False))
     return [{"sig": {"kind": k}, "what": t, "case": case} for k, t in judge(cfg, out)]
 
 
